@@ -1,9 +1,9 @@
 package main
 
 import (
-	"math/bits"
 	"fmt"
 	"go/types"
+	"math/bits"
 	"strings"
 
 	"golang.org/x/tools/go/ssa"
@@ -30,27 +30,27 @@ func (c *Ctx) lookupIntrinsic(fn *ssa.Function) (intrinsicFn, bool) {
 
 func init() {
 	intrinsics = map[string]intrinsicFn{
-		"strings.SplitN":      inSplitN,
-		"strings.Split":       inSplit,
-		"strings.Contains":    inContains,
-		"strings.ContainsAny": inContainsAny,
-		"strings.HasPrefix":   inHasPrefix,
-		"strings.HasSuffix":   inHasSuffix,
-		"strings.TrimPrefix":  inTrimPrefix,
-		"strings.TrimSuffix":  inTrimSuffix,
-		"strings.Index":       inIndex,
-		"strings.IndexByte":   inIndexByte,
-		"strings.LastIndex":   inLastIndex,
-		"strings.Count":       inCount,
-		"strings.Join":        inJoin,
-		"strings.ReplaceAll":  inReplaceAll,
-		"strings.ToLower":     inToLower,
-		"strings.TrimSpace":   inTrimSpace,
-		"strings.Cut":         inCut,
-		"strings.Repeat":      inRepeat,
-		"strings.TrimRight":   inTrimOpaqueOK,
-		"strings.TrimLeft":    inTrimOpaqueOK,
-		"strings.Trim":        inTrimOpaqueOK,
+		"strings.SplitN":                   inSplitN,
+		"strings.Split":                    inSplit,
+		"strings.Contains":                 inContains,
+		"strings.ContainsAny":              inContainsAny,
+		"strings.HasPrefix":                inHasPrefix,
+		"strings.HasSuffix":                inHasSuffix,
+		"strings.TrimPrefix":               inTrimPrefix,
+		"strings.TrimSuffix":               inTrimSuffix,
+		"strings.Index":                    inIndex,
+		"strings.IndexByte":                inIndexByte,
+		"strings.LastIndex":                inLastIndex,
+		"strings.Count":                    inCount,
+		"strings.Join":                     inJoin,
+		"strings.ReplaceAll":               inReplaceAll,
+		"strings.ToLower":                  inToLower,
+		"strings.TrimSpace":                inTrimSpace,
+		"strings.Cut":                      inCut,
+		"strings.Repeat":                   inRepeat,
+		"strings.TrimRight":                inTrimOpaqueOK,
+		"strings.TrimLeft":                 inTrimOpaqueOK,
+		"strings.Trim":                     inTrimOpaqueOK,
 		"internal/bytealg.IndexByteString": inIndexByte,
 		"internal/bytealg.CountString":     inCountByte,
 		"internal/stringslite.HasPrefix":   inHasPrefix,
@@ -61,19 +61,19 @@ func init() {
 		"internal/stringslite.TrimSuffix":  inTrimSuffix,
 		"internal/stringslite.Cut":         inCut,
 
-		"fmt.Errorf":   inErrorf,
-		"fmt.Sprintf":  inSprintf,
-		"fmt.Sprint":   inOpaqueString,
-		"fmt.Sprintln": inOpaqueString,
-		"fmt.Printf":   inNoop,
-		"fmt.Println":  inNoop,
-		"fmt.Print":    inNoop,
-		"fmt.Fprintf":  inNoop,
-		"fmt.Fprintln": inNoop,
-		"fmt.Fprint":   inNoop,
-		"errors.New":   inErrorsNew,
-		"errors.Is":    inErrorsIs,
-		"errors.Join":  inErrorsJoin,
+		"fmt.Errorf":    inErrorf,
+		"fmt.Sprintf":   inSprintf,
+		"fmt.Sprint":    inOpaqueString,
+		"fmt.Sprintln":  inOpaqueString,
+		"fmt.Printf":    inNoop,
+		"fmt.Println":   inNoop,
+		"fmt.Print":     inNoop,
+		"fmt.Fprintf":   inNoop,
+		"fmt.Fprintln":  inNoop,
+		"fmt.Fprint":    inNoop,
+		"errors.New":    inErrorsNew,
+		"errors.Is":     inErrorsIs,
+		"errors.Join":   inErrorsJoin,
 		"errors.Unwrap": inErrorsUnwrap,
 		"os.IsNotExist": inOsIsNotExist,
 		"os.IsExist":    inOsIsExist,
@@ -86,12 +86,12 @@ func init() {
 		"(*sync.RWMutex).RUnlock": inRWRUnlock,
 		"(*sync.Once).Do":         inOnceDo,
 
-		"regexp.MustCompile":            inRegexpMustCompile,
-		"(*regexp.Regexp).MatchString":  inRegexpMatchString,
-		"sort.Strings":                  inSortStrings,
-		"os.Exit":                       inOsExit,
-		"runtime.KeepAlive":             inNoop,
-		"runtime.SetFinalizer":          inNoop,
+		"regexp.MustCompile":           inRegexpMustCompile,
+		"(*regexp.Regexp).MatchString": inRegexpMatchString,
+		"sort.Strings":                 inSortStrings,
+		"os.Exit":                      inOsExit,
+		"runtime.KeepAlive":            inNoop,
+		"runtime.SetFinalizer":         inNoop,
 	}
 }
 
@@ -1373,8 +1373,12 @@ func (c *Ctx) deepEq(st *State, a, b Value, depth int, visiting map[[2]int]bool)
 // ---------------------------------------------------------------- sort.Slice / sort.SliceStable
 
 func init() {
-	intrinsics["sort.Slice"] = func(c *Ctx, st *State, fn *ssa.Function, args []Value) (*State, Value) { return c.sortSlice(st, args, false) }
-	intrinsics["sort.SliceStable"] = func(c *Ctx, st *State, fn *ssa.Function, args []Value) (*State, Value) { return c.sortSlice(st, args, true) }
+	intrinsics["sort.Slice"] = func(c *Ctx, st *State, fn *ssa.Function, args []Value) (*State, Value) {
+		return c.sortSlice(st, args, false)
+	}
+	intrinsics["sort.SliceStable"] = func(c *Ctx, st *State, fn *ssa.Function, args []Value) (*State, Value) {
+		return c.sortSlice(st, args, true)
+	}
 }
 
 // insertion sort driven by the less callback. For sort.Slice this is what the library itself does up to 12 elements;
